@@ -23,6 +23,7 @@ import (
 
 // Action is one request of a TLC-generated behaviour.
 type Action struct {
+	Stall  string          `json:"stall"` // (end) this client stops reading for the first 150 ms of the step: writes to it block
 	N      string          `json:"n"`
 	C      string          `json:"c"`
 	U      string          `json:"u"`
@@ -506,7 +507,7 @@ func ReplayN(nb int, surveyed bool, mode string, licVer int, storage string, wal
 		ev["e"] = a.N
 		delete(ev, "n")
 		c := w.clients[a.C]
-		if a.N != "connect" && a.N != "cluster" && a.N != "restart" && (c == nil || c.Closed) {
+		if a.N != "connect" && a.N != "cluster" && a.N != "restart" && a.N != "stranger" && (c == nil || c.Closed) {
 			if closedByHostile[a.C] {
 				break // the generator assumed the connection survives its hostile request; the broker closed it (allowed): the behaviour ends here
 			}
@@ -561,6 +562,10 @@ func ReplayN(nb int, surveyed bool, mode string, licVer int, storage string, wal
 			req, _ := json.Marshal(m)
 			c.Send(&mqtt.Publish{Header: mqtt.Header{QOS: 1}, MessageID: w.msgID, Topic: []byte("emitter/presence/"), Payload: req})
 		case "end":
+			if sc := w.clients[a.Stall]; a.Stall != "" && sc != nil && !sc.Closed {
+				sc.C.Stall(true)
+				go func() { time.Sleep(150 * time.Millisecond); sc.C.Stall(false) }()
+			}
 			switch a.How {
 			case "disconnect":
 				c.Send(&mqtt.Disconnect{})
@@ -597,6 +602,36 @@ func ReplayN(nb int, surveyed bool, mode string, licVer int, storage string, wal
 			}
 			c.Closed = true
 			c.C.Close()
+		case "stranger":
+			// a connection that never sends CONNECT
+			x := b.Attach()
+			switch a.Cls {
+			case "ping":
+				x.Send(&mqtt.Pingreq{})
+				x.Barrier0(stepTimeout)
+			case "disconnect":
+				x.Send(&mqtt.Disconnect{})
+			case "cut-connect":
+				var buf strings.Builder
+				(&mqtt.Connect{ClientID: []byte("stranger"), UsernameFlag: true, Username: []byte("nobody")}).EncodeTo(&buf)
+				raw := []byte(buf.String())
+				x.SendRaw(raw[:1+rng.Intn(len(raw)-1)])
+			case "garbage":
+				g := make([]byte, 24)
+				rng.Read(g)
+				x.SendRaw(g)
+			case "sub-first":
+				x.Send(&mqtt.Subscribe{MessageID: 1, Subscriptions: []mqtt.TopicQOSTuple{{Topic: []byte(w.key("kAll") + "/stranger/")}}})
+				x.Barrier(stepTimeout)
+			case "pub-first":
+				x.Send(&mqtt.Publish{Header: mqtt.Header{QOS: 1}, MessageID: 1, Topic: []byte(w.key("kAll") + "/stranger/"), Payload: []byte("x")})
+				x.Barrier(stepTimeout)
+			}
+			x.C.Close()
+			if !x.WaitServerClosed(stepTimeout) {
+				return nil, fmt.Errorf("stranger %s: the broker did not finish closing the connection (hang)", a.Cls)
+			}
+			x.Closed = true
 		case "restart":
 			// stop the broker (every connection has ended), start a new one on the same directory
 			f.close()
@@ -662,7 +697,7 @@ func (w *world) storedMessages() map[string][][]any {
 		b := w.f.bs[bn]
 		seen := map[string]bool{}
 		list := [][]any{}
-		for _, first := range []string{"a", "b", "x", "y", "cut", "hostile"} {
+		for _, first := range []string{"a", "b", "x", "y"} { // the channels of the model (hostile requests use first levels of their own)
 			ssid := message.NewSsid(b.Lic.Contract(), []uint32{hash.OfString(first)})
 			fr, err := b.Svc.VerifStorage().Query(ssid, time.Unix(0, 0), time.Unix(0, 0), nil, 10000)
 			if err != nil {
@@ -805,6 +840,59 @@ func RunFamily(c *core.Ctx, p Plan) {
 		}
 		for i, w := range Simulate(c, mode, "all", num/3, depth, rng) {
 			jobs = append(jobs, job{mode, w, 100000 + i})
+		}
+		if p.Fam == "ending" || p.Fam == "presence" {
+			// mass departure in front of a watcher that has stopped reading: c1 holds 130 subscriptions below the watched
+			// channel (more than the presence queue holds), the watcher's socket window is full while c1's connection ends
+			mk := func(format string, a ...any) json.RawMessage { return json.RawMessage(fmt.Sprintf(format, a...)) }
+			watch, depth2 := `["a"]`, false
+			if mode == "mqtt" {
+				watch, depth2 = `["a","+"]`, true // the mqtt matcher matches same-depth only
+			}
+			_ = depth2
+			for vi, how := range []string{"drop", "disconnect"} {
+				w := []json.RawMessage{
+					mk(`{"n":"connect","c":"c1","u":"u-c1","will":{"on":true,"k":"kAll","w":["a","will"],"syn":"ok","retain":false,"p":"will"}}`),
+					mk(`{"n":"connect","c":"c2","u":"u-c2","will":{"on":false}}`),
+					mk(`{"n":"connect","c":"c3","u":"u-c3","will":{"on":false}}`),
+					mk(`{"n":"presence","c":"c3","k":"kAll","w":%s,"syn":"ok","status":false,"chg":"on"}`, watch),
+					mk(`{"n":"sub","c":"c2","k":"kAll","w":["a","will"],"syn":"ok","last":0,"win":"none"}`),
+				}
+				for i := 0; i < 130; i++ {
+					w = append(w, mk(`{"n":"sub","c":"c1","k":"kAll","w":["a","s%d"],"syn":"ok","last":0,"win":"none"}`, i))
+				}
+				w = append(w, mk(`{"n":"end","c":"c1","how":%q,"stall":"c3"}`, how),
+					mk(`{"n":"presence","c":"c2","k":"kAll","w":["a","s7"],"syn":"ok","status":true,"chg":"none"}`),
+					mk(`{"n":"pub","c":"c2","k":"kAll","w":["a","s7"],"syn":"ok","me0":false,"ttl":-1,"via":"","retain":false,"qos":1,"p":"after"}`))
+				jobs = append(jobs, job{mode, w, 500000 + vi})
+			}
+		}
+		if p.Fam == "retain" {
+			// restart contexts (the simulation reaches a restart rarely: every client must have ended first): messages
+			// stored by c1 (retain / ttl / both, nested channels), c1 ends, the broker restarts on its directory, c2 subscribes
+			mk := func(format string, a ...any) json.RawMessage { return json.RawMessage(fmt.Sprintf(format, a...)) }
+			for vi, variant := range [][2]any{{true, -1}, {false, 3600}, {true, 7776000}, {false, 7776000}} {
+				for fi, filt := range []string{`["a"]`, `["a","b"]`, `["a","+"]`} {
+					if filt == `["a","+"]` && mode != "mqtt" && vi > 1 {
+						continue
+					}
+					w := []json.RawMessage{
+						mk(`{"n":"connect","c":"c1","u":"u-c1","will":{"on":false}}`),
+						mk(`{"n":"pub","c":"c1","k":"kAll","w":["a"],"syn":"ok","me0":false,"ttl":%v,"via":"","retain":%v,"qos":1,"p":"m1"}`, variant[1], variant[0]),
+						mk(`{"n":"pub","c":"c1","k":"kAll","w":["a","b"],"syn":"ok","me0":false,"ttl":%v,"via":"","retain":%v,"qos":1,"p":"m2"}`, variant[1], variant[0]),
+						mk(`{"n":"pub","c":"c1","k":"kNoSL","w":["a","b"],"syn":"ok","me0":false,"ttl":3600,"via":"","retain":true,"qos":1,"p":"m3"}`),
+						mk(`{"n":"end","c":"c1","how":"drop"}`),
+						mk(`{"n":"restart"}`),
+						mk(`{"n":"connect","c":"c2","u":"u-c2","will":{"on":false}}`),
+						mk(`{"n":"sub","c":"c2","k":"kAll","w":%s,"syn":"ok","last":2,"win":"none"}`, filt),
+						mk(`{"n":"sub","c":"c2","k":"kNoSL","w":["a"],"syn":"ok","last":-1,"win":"none"}`),
+						mk(`{"n":"pub","c":"c2","k":"kAll","w":["a","b"],"syn":"ok","me0":false,"ttl":3600,"via":"","retain":false,"qos":1,"p":"m4"}`),
+						mk(`{"n":"connect","c":"c3","u":"u-c3","will":{"on":false}}`),
+						mk(`{"n":"sub","c":"c3","k":"kAll","w":["a"],"syn":"ok","last":1000,"win":"none"}`),
+					}
+					jobs = append(jobs, job{mode, w, 400000 + vi*10 + fi})
+				}
+			}
 		}
 		if p.Fam == "ending" {
 			// cut sweep ("each byte offset inside a packet"): sessions that end with a cut are repeated with the cut after
